@@ -23,7 +23,7 @@ SPEC = {
         "idealisations: wall-clock time is not modelled; plz exit status 0 vs non-zero only",
     ],
     "assumptions": ["each run starts from an empty plz-out and cache; genrule-only repositories", "a failure to parse a package (syntax error, self-dependency) fails every target of that package"],
-    "harness_timeout": 3000,
+    "harness_timeout": 6000,
 }
 
 MUTATIONS = """
